@@ -106,33 +106,32 @@ func (a Box2) Equals(b Box2, delta float64) bool {
 
 //-----------------------------------------------------------------------------
 // Box Sub-Quadrants
+//
+// The quadrants share the box's own corner and centre coordinates, so that the
+// edges of neighbouring quadrants (at every level) are the same numbers.
 
 // quad0 returns the 0th quadtree box of a box (lower-left).
 func (a Box2) quad0() Box2 {
-	delta := a.Size().MulScalar(0.5)
-	ll := a.Min
-	return Box2{ll, ll.Add(delta)}
+	c := a.Center()
+	return Box2{a.Min, c}
 }
 
 // quad1 returns the 1st quadtree box of a box (lower-right).
 func (a Box2) quad1() Box2 {
-	delta := a.Size().MulScalar(0.5)
-	ll := v2.Vec{a.Min.X + delta.X, a.Min.Y}
-	return Box2{ll, ll.Add(delta)}
+	c := a.Center()
+	return Box2{v2.Vec{c.X, a.Min.Y}, v2.Vec{a.Max.X, c.Y}}
 }
 
 // quad2 returns the 2nd quadtree box of a box (top-left).
 func (a Box2) quad2() Box2 {
-	delta := a.Size().MulScalar(0.5)
-	ll := v2.Vec{a.Min.X, a.Min.Y + delta.Y}
-	return Box2{ll, ll.Add(delta)}
+	c := a.Center()
+	return Box2{v2.Vec{a.Min.X, c.Y}, v2.Vec{c.X, a.Max.Y}}
 }
 
 // quad3 returns the 3rd quadtree box of a box (top-right).
 func (a Box2) quad3() Box2 {
-	delta := a.Size().MulScalar(0.5)
-	ll := a.Min.Add(delta)
-	return Box2{ll, ll.Add(delta)}
+	c := a.Center()
+	return Box2{c, a.Max}
 }
 
 //-----------------------------------------------------------------------------
